@@ -35,6 +35,12 @@
          New                  l.New(OptLists[a]...)  options WithUTCMode / WithTimeFormat in order
          AddFlag / RemoveFlag slog.AddFlags(f) / slog.RemoveFlags(f)
          SetFlags             slog.SetFlags(FlagSets[a] + the non-timestamp flags)
+         ResetFlags           slog.ResetFlags(): the factory flags (time, microseconds, local time)
+         SaveMod              restore := slog.SaveFlagsAndMod(FlagSets[a], FlagSets[b]) (b = 0: nothing
+                              removed): remembers the flags, adds, then removes
+         Restore              calls the a-th restore function obtained so far (any of them, any
+                              number of times, in any order): the flags are what they were when
+                              that SaveMod was called
        Guard(s, e) / Step(s, e) / Ret(s, e, s2) are the functional core used by Next (exhaustive
        exploration, state graph dumped for replay) and by TimestampTrace (validation of what
        the library did).  The last call wins; a With call creates a child and leaves every
@@ -62,7 +68,8 @@ CONSTANTS
     FlagSets,     \* sequence of flag sets for SetFlags
     XBool, XLay, XOpt, XFlagSet,  \* the argument indexes explored exhaustively
     XFlags,       \* the flags toggled by AddFlag / RemoveFlag in the exhaustive model
-    Inherit       \* subset of {FALSE, TRUE}: may a fresh child start from its parent's settings
+    Inherit,      \* subset of {FALSE, TRUE}: may a fresh child start from its parent's settings
+    MaxSaved      \* bound on SaveMod scopes in the exhaustive model
 
 VARIABLE st
 
@@ -161,7 +168,8 @@ TableOK ==
 -----------------------------------------------------------------------------
 (* (2) The configuration machine *)
 
-InitState == [n |-> 1, utc |-> <<0>>, lay |-> <<"">>, flags |-> {"time", "micro", "local"}]   \* LstdFlags
+FactoryFlags == {"time", "micro", "local"}      \* LstdFlags
+InitState == [n |-> 1, utc |-> <<0>>, lay |-> <<"">>, flags |-> FactoryFlags, saved |-> <<>>]
 
 Live(s) == 1..s.n
 
@@ -192,7 +200,7 @@ ApplyOpts(c, os) ==
 AddChild(s, c) == [s EXCEPT !.n = s.n + 1, !.utc = Append(s.utc, c[1]), !.lay = Append(s.lay, c[2])]
 
 LoggerOps == {"SetUTC", "WithUTC", "SetTF", "WithTF", "New"}
-FlagOps == {"AddFlag", "RemoveFlag", "SetFlags"}
+FlagOps == {"AddFlag", "RemoveFlag", "SetFlags", "ResetFlags", "SaveMod", "Restore"}
 
 Guard(s, e) ==
     CASE e.op \in {"SetUTC", "WithUTC"} -> e.l \in Live(s) /\ e.a \in DOMAIN BoolLists
@@ -200,6 +208,9 @@ Guard(s, e) ==
       [] e.op = "New" -> e.l \in Live(s) /\ e.a \in DOMAIN OptLists
       [] e.op \in {"AddFlag", "RemoveFlag"} -> e.f \in AllFlags
       [] e.op = "SetFlags" -> e.a \in DOMAIN FlagSets
+      [] e.op = "ResetFlags" -> TRUE
+      [] e.op = "SaveMod" -> e.a \in DOMAIN FlagSets /\ (e.b = 0 \/ e.b \in DOMAIN FlagSets)
+      [] e.op = "Restore" -> e.a \in DOMAIN s.saved
       [] OTHER -> FALSE
 
 \* successors when children start from the starts `cs(s, p)`
@@ -212,6 +223,10 @@ StepWith(s, e, starts) ==
       [] e.op = "AddFlag" -> {[s EXCEPT !.flags = s.flags \cup {e.f}]}
       [] e.op = "RemoveFlag" -> {[s EXCEPT !.flags = s.flags \ {e.f}]}
       [] e.op = "SetFlags" -> {[s EXCEPT !.flags = FlagSets[e.a]]}
+      [] e.op = "ResetFlags" -> {[s EXCEPT !.flags = FactoryFlags]}
+      [] e.op = "SaveMod" -> {[s EXCEPT !.saved = Append(s.saved, s.flags),
+                                        !.flags = (s.flags \cup FlagSets[e.a]) \ (IF e.b = 0 THEN {} ELSE FlagSets[e.b])]}
+      [] e.op = "Restore" -> {[s EXCEPT !.flags = s.saved[e.a]]}
 
 Step(s, e) == StepWith(s, e, IF e.op \in LoggerOps THEN ChildStarts(s, e.l) ELSE {})
 StepNoInherit(s, e) == StepWith(s, e, ChildStartsNoInherit)
@@ -240,6 +255,12 @@ New(l, a) == a \in XOpt /\ st.n < MaxLoggers /\ Do("New", l, a, "")
 AddFlag(f) == f \in XFlags /\ Do("AddFlag", 0, 0, f)
 RemoveFlag(f) == f \in XFlags /\ Do("RemoveFlag", 0, 0, f)
 SetFlags(a) == a \in XFlagSet /\ Do("SetFlags", 0, a, "")
+ResetFlags == XFlagSet # {} /\ Do("ResetFlags", 0, 0, "")
+SaveMod(a, b) ==
+    /\ a \in XFlagSet /\ b \in XFlagSet \cup {0} /\ Len(st.saved) < MaxSaved
+    /\ LET e == [op |-> "SaveMod", l |-> 0, a |-> a, f |-> "", b |-> b]
+       IN Guard(st, e) /\ st' \in Step(st, e)
+Restore(a) == a \in 1..MaxSaved /\ Do("Restore", 0, a, "")
 
 Next ==
     \/ \E l \in 1..MaxLoggers, a \in DOMAIN BoolLists : SetUTC(l, a)
@@ -250,6 +271,9 @@ Next ==
     \/ \E f \in AllFlags : AddFlag(f)
     \/ \E f \in AllFlags : RemoveFlag(f)
     \/ \E a \in DOMAIN FlagSets : SetFlags(a)
+    \/ ResetFlags
+    \/ \E a \in DOMAIN FlagSets, b \in 0..Len(FlagSets) : SaveMod(a, b)
+    \/ \E a \in 1..MaxSaved : Restore(a)
 
 Init == st = InitState
 Spec == Init /\ [][Next]_st
@@ -264,6 +288,7 @@ TypeOK ==
     /\ Len(st.utc) = st.n /\ Len(st.lay) = st.n
     /\ \A l \in Live(st) : st.utc[l] \in 0..2 /\ st.lay[l] \in {""} \cup Customs
     /\ st.flags \subseteq AllFlags
+    /\ Len(st.saved) <= MaxSaved /\ \A k \in DOMAIN st.saved : st.saved[k] \subseteq AllFlags
 
 \* the cell of every live logger, in every format, satisfies the table properties
 CellsOKIn(s) ==
@@ -291,6 +316,10 @@ Isolation ==
        /\ st'.n > st.n => \A l \in Live(st) : <<st'.utc[l], st'.lay[l]>> = <<st.utc[l], st.lay[l]>>
        /\ st'.n > st.n => st'.flags = st.flags
        /\ st'.flags # st.flags => (st'.n = st.n /\ st'.utc = st.utc /\ st'.lay = st.lay)]_st
+
+\* a restore function gives back exactly the flags of the moment it was made, whatever happened since
+RestoreExact ==
+    [][\A k \in DOMAIN st.saved : k \in DOMAIN st'.saved /\ st'.saved[k] = st.saved[k]]_st
 
 \* there is no call that takes a layout away again, and none that returns a logger to "no mode chosen"
 LayoutSticky ==
